@@ -54,7 +54,16 @@ class _RD(ReachingDefs):
 
 class Spec:
     def __init__(self, an, fn: FunctionInfo, decide: Callable[[ast.expr, Optional[Node]], Optional[bool]]):
-        self.an, self.fn, self._decide = an, fn, decide
+        self.an, self.fn = an, fn
+        # decide(expr, node) or decide(expr, node, spec): the three-argument form may ask the specialisation built so far
+        # (spec.sources) what a local can hold under the assumption
+        import inspect
+        try:
+            names = list(inspect.signature(decide).parameters)
+        except (TypeError, ValueError):
+            names = []
+        wants_spec = len(names) >= 3 and names[2] in ("sp", "spec")
+        self._decide = (lambda e, n, _d=decide: _d(e, n, self)) if wants_spec else decide
         self.g = an.cfg(fn)
         self._base_rd = reaching_defs(fn)
         self._memo: Dict[int, Optional[bool]] = {}
@@ -260,6 +269,13 @@ class Spec:
     def raises(self) -> List[Node]:
         """explicit raise statements reachable without any exception having been raised before"""
         return [n for n in self.g.nodes if n.kind == "raise" and n in self.normal]
+
+    def falls_through(self) -> bool:
+        """can control run off the end of the body (no return statement) under the assumption?"""
+        for p in self.g.exit.pred:
+            if p in self.normal and p.kind != "return" and any(s is self.g.exit and self.edge_ok(p, s, l) for s, l in p.succ):
+                return True
+        return False
 
     def falls_off(self) -> bool:
         """can the function end normally (return or fall off the end) under the assumption?"""
